@@ -24,6 +24,8 @@ SPECIALS = [
     'T154N-R97W Sec 14: Sec 15: Sec 16:', 'Sec 14: T154N-R97W Sec 15: T155N-R97W', 'T154N-R97W, of the 5th P.M.',
     'P.M.', 'Principal Meridian', 'T154N-R97W of the Principal Meridian Sec 14: NE/4',
     'TIS4N-R97W Sec 14: NE/4', 'T1S4N-R9TW', 'Tl54N-RO7W Sec I4',
+    'T154N-R97W Sec 14:\xa0NE/4,\xa0Sec 15: W/2', 'T154N-R97W\u2003Sec 14: NE/4\x0cSec 15: W/2', 'T154N-R97W Sec 14: NE/4\rSec 15: W/2',
+    'NE/4 of\xa0Section 14,\xa0T154N-R97W', 'T154N-R97W\x0bSec 14:\u2009NE/4',
 ]
 
 # ---------------------------------------------------------------- parse modes
